@@ -909,8 +909,8 @@ def logtofile_case(rep):
     d = tempfile.mkdtemp(prefix='c16l_', dir='/dev/shm' if os.path.isdir('/dev/shm') else None)
     saved = (LogToFile.allow_overwriting, fio.FieldsIO.ALLOW_OVERWRITE)
 
-    def run(hook, t0, nsteps, u0val=1.0):
-        desc = dict(problem_class=OutProb, problem_params={'lambdas': np.array([-1.0, -2.0j]), 'u0': u0val}, sweeper_class=generic_implicit,
+    def run(hook, t0, nsteps, u0val=1.0, lambdas=(-1.0, -2.0j)):
+        desc = dict(problem_class=OutProb, problem_params={'lambdas': np.array(lambdas), 'u0': u0val}, sweeper_class=generic_implicit,
                     sweeper_params={'num_nodes': 2, 'quad_type': 'RADAU-RIGHT'}, level_params={'dt': 0.125, 'restol': -1}, step_params={'maxiter': 2})
         ctl = controller_nonMPI(1, {'logger_level': 50, 'dump_setup': False, 'hook_class': [hook]}, desc)
         P = ctl.MS[0].levels[0].prob
@@ -926,6 +926,9 @@ def logtofile_case(rep):
         f = fio.FieldsIO.fromFile(Plain.filename)
         ok = f.nFields == 4 and f.times == [0.0, 0.125, 0.25, 0.375] and f.readField(-1)[1].tobytes() == np.array(uend, dtype=np.complex128).tobytes() and f.readField(0)[1].tobytes() == np.ones(2, dtype=np.complex128).tobytes()
         rep.side('logtofile/round-trip', ok, {'times': f.times})
+        # the hook's own reader: load(i) returns record i of the file as it is NOW (also after the file was written again with another header)
+        l0, l3 = Plain.load(0), Plain.load(-1)
+        rep.side('logtofile/load', l0['t'] == 0.0 and l0['u'].tobytes() == f.readField(0)[1].tobytes() and l3['t'] == 0.375 and l3['u'].tobytes() == f.readField(-1)[1].tobytes())
         before = open(Plain.filename, 'rb').read()
         # 2. a second run from t0 = 0 on the existing file is refused and leaves the file byte-identical
         refused = False
@@ -963,9 +966,16 @@ def logtofile_case(rep):
             filename = Plain.filename
             allow_overwriting = True
 
-        run(Over, 0.0, 1, u0val=2.0)
+        run(Over, 0.0, 1, u0val=2.0, lambdas=(-1.0, -2.0j, -0.5))
         f = fio.FieldsIO.fromFile(Plain.filename)
-        rep.side('logtofile/overwriting-enabled-recreates', f.nFields == 2 and f.readField(0)[1].tobytes() == (2 * np.ones(2, dtype=np.complex128)).tobytes(), {'nFields': f.nFields})
+        rep.side('logtofile/overwriting-enabled-recreates', f.nFields == 2 and f.readField(0)[1].tobytes() == (2 * np.ones(3, dtype=np.complex128)).tobytes(), {'nFields': f.nFields})
+        okl = True
+        for cls_ in (Over, Plain):
+            for i in (0, 1, -1):
+                li = cls_.load(i)
+                ti, ui = f.readField(i)
+                okl = okl and li['t'] == ti and np.asarray(li['u']).shape == ui.shape and np.asarray(li['u']).tobytes() == ui.tobytes()
+        rep.side('logtofile/load-after-the-file-was-written-again', okl)
         rep.translator += 5
     except Exception as e:
         rep.side('logtofile/scenarios-run', False, f'{type(e).__name__}: {e}')
